@@ -14,6 +14,7 @@ let () =
     | "c08" -> C08.run_line
     | "c09" -> C09.run_line
     | "c10" -> C10.run_line
+    | "c11" -> C11.run_line
     | "c13" -> C13.run_line
     | "c14" | "c15" -> C14.run_line
     | _ -> prerr_endline ("unknown property " ^ prop); exit 2 in
